@@ -1,10 +1,13 @@
 """Properties not claimed, each with the reason (kept in sync with DESIGN.md §5)."""
 HOOK_COMMITS = ["cf09ee52", "8fd24c77"]
 
-_WIP = "check not built yet in this session (planned, see DESIGN.md §5); not claimed until its harnesses run green"
+_WIP = "not built"
 NOT_APPLICABLE = {
-    "C06": _WIP, "C09": _WIP,
-    
+    "C06": "not claimed: the strict-subset half is only implied by the C01 parse_args harnesses (flags fully symbolic against one rule "
+           "table); the commutation half needs two-condition runs of parse_conditions (2 x 150-300 s per pair of arms) and was not "
+           "built in the time available - no dedicated check, so no claim",
+    "C09": "not claimed: the CREATE_COIN scan of additions_and_removals is a private loop body (needs a slicing hook) and the other "
+           "helpers sit behind run_program; no harness was built",
     "C07": "needs symbolic execution of clvmr::run_program (the legacy path is a CLVM program run by the interpreter); "
            "measured: parse_conditions with one concrete condition already exhausts 14 GB in CBMC; no bounded claim of value possible",
     "C08": "needs run_program, the back-reference serializer and intern_tree on symbolic bundles - same obstacle as C07; "
